@@ -271,3 +271,51 @@ def r_signum_zero(cx):
             cx.ob("R-SIGNUM-ZERO", "%s/ok" % name, True,
                   "%s does not take the sign of a sum from an integer signum()" % name, cx.where(f.d["span"]))
     cx.count("R-SIGNUM-ZERO", "functions", n)
+
+
+# ---------------------------------------------------------------------------------------------------------------------
+# R-DEFAULT-RMW (C19): the default bulk setters are read-modify-write
+
+@rule("R-DEFAULT-RMW", ["C19", "C02"])
+def r_default_rmw(cx):
+    """The default CoordinateSet::set_xy / set_xyz / set_xyzt (used by every container that does not override them:
+    the height/epoch adapters, user defined sets) write the given values to the leading elements and hand every other
+    element of the tuple back exactly as read from the same index."""
+    import elems as E
+    base = "coordinate::set::CoordinateSet::"
+    n = 0
+    for meth, dim in (("set_xy", 2), ("set_xyz", 3), ("set_xyzt", 4)):
+        name = base + meth
+        if not cx.f.has_fn(name):
+            cx.ob("R-DEFAULT-RMW", meth, False, "anchor-missing: default method %s" % name)
+            continue
+        f = cx.f.fn(name)
+        writes = [(bb, t) for bb, t in f.calls() if (t.get("callee") or f.callee(t) or "").endswith("CoordinateSet::set_coord")]
+        if len(writes) != 1:
+            cx.ob("R-DEFAULT-RMW", meth, False, "%s does not end in exactly one set_coord call (%d found)" % (name, len(writes)),
+                  cx.where(f.d["span"]))
+            continue
+        bb, t = writes[0]
+        args = f.arg_terms(bb)
+        n += 1
+        bad = None
+        if mir.strip_refs(args[1]) != ("arg", 2):
+            bad = "the tuple is written to another index than the one asked for"
+        v = f._deref(args[2], f.end_point(bb))
+        es = E.elems(f, v, f.end_point(bb))
+        for k in range(4):
+            e = mir.strip_refs(es[k])
+            if k < dim:
+                if e != ("arg", 3 + k):
+                    bad = bad or "element %d written is not the %s argument" % (k, "xyzt"[k])
+            else:
+                ok = e[0] == "proj" and e[2] == ("elem", k) and e[1][0] == "call" and isinstance(e[1][1], str) and \
+                    e[1][1].endswith("get_coord") and len(e[1][2]) > 1 and mir.strip_refs(e[1][2][1]) == ("arg", 2)
+                if not ok:
+                    bad = bad or "element %d of the tuple written is not the one read from the same index (it is %s)" % (
+                        k, mir.show(e)[:60])
+        cx.ob("R-DEFAULT-RMW", meth, bad is None,
+              "default %s: given values to elements 0..%d, the rest as read from the same index" % (meth, dim - 1)
+              if bad is None else "default CoordinateSet::%s: %s - containers relying on the default lose the stored "
+              "dimensions the operator does not work on" % (meth, bad), cx.where(t["span"]))
+    cx.count("R-DEFAULT-RMW", "methods", n)
